@@ -107,13 +107,18 @@ def scalar_case(task):
     # the weights; an integer field has a non-integer derivative)
     try:
         for idx, col in cols.items():
-            for dt, tol in ((np.int64, TOL), (np.float32, 2e-6)):
-                if dt is np.float32 and any(
+            for dt, tol, amp in ((np.int64, TOL, 1), (np.float32, 2e-6, 1),
+                                 (np.int32, TOL, 10 ** 8),
+                                 (np.int16, TOL, 30000),
+                                 (np.uint8, TOL, 200)):
+                # (large values in narrow integer types: a weight written as
+                # a Python int keeps the product in that type and wraps)
+                if dt is not np.int64 and any(
                         idx[a] != 0 for a in range(3) if a != axis):
                     continue
                 e = np.zeros(shape, dtype=dt)
-                e[idx] = 1
-                r = np.asarray(op(e))
+                e[idx] = amp
+                r = np.asarray(op(e)) / amp
                 out['entries'] += col.size
                 if r.shape != col.shape or not (
                         np.abs(r - col).max() <= tol * scale):
